@@ -111,9 +111,13 @@ pcgstrf_pivotL(
 
     /* Test for singularity */
     if ( pivmax == 0.0 ) {
-	*pivrow = lsub_ptr[pivptr];
-	perm_r[*pivrow] = jcol;
-	inv_perm_r[jcol] = *pivrow;
+	if ( pivptr < nsupr ) { /* there is a candidate row to record */
+	    *pivrow = lsub_ptr[pivptr];
+	    perm_r[*pivrow] = jcol;
+	    inv_perm_r[jcol] = *pivrow;
+	} else { /* structurally empty column: no row to pivot on */
+	    *pivrow = EMPTY;
+	}
 	*usepr = NO;
 	return (jcol+1);
     }
